@@ -45,6 +45,7 @@ func (g *Gen) metaTable(tag string) *L.TableExpr {
 		add("__tostring", fn([]string{"a"}, false, blk(emit(str("__tostring"+tag)), ret(str("OBJ"+tag)))))
 	}
 	if g.n(5, "haslen") == 0 {
+		g.mtHasLen[tag] = true
 		add("__len", fn([]string{"a"}, false, blk(emit(str("__len"+tag)), ret(num(42)))))
 	}
 	if g.n(6, "hasprot") == 0 {
@@ -68,10 +69,13 @@ func (g *Gen) metaTable(tag string) *L.TableExpr {
 // operandZoo returns names of the operands available to the template and the statements defining them.
 func (g *Gen) operandZoo() ([]string, []L.Stmt) {
 	var ss []L.Stmt
+	g.mtHasLen, g.opIsUd, g.opMt = map[string]bool{}, map[string]bool{}, map[string]string{}
+	mtTag := map[string]string{"mtA": "A", "mtB": "B"}
 	ss = append(ss, local1("sink", tbl()))
 	ss = append(ss, local1("mtA", g.metaTable("A")))
 	if g.n(2, "sharedmt") == 0 {
 		ss = append(ss, local1("mtB", name("mtA")))
+		mtTag["mtB"] = "A"
 		g.class("meta:shared_metatable")
 	} else {
 		ss = append(ss, local1("mtB", g.metaTable("B")))
@@ -82,8 +86,10 @@ func (g *Gen) operandZoo() ([]string, []L.Stmt) {
 		}
 	}
 	mk := func(n, mt string) L.Stmt {
+		g.opMt[n] = mtTag[mt]
 		if g.n(3, "udobj") == 0 {
 			g.class("meta:userdata_operand")
+			g.opIsUd[n] = true
 			return local1(n, call(name("newud"), name(mt)))
 		}
 		return local1(n, call(name("setmetatable"), tbl(kv(str("own"), str("raw "+n))), name(mt)))
@@ -147,6 +153,10 @@ func (g *Gen) tplMetaOps() []L.Stmt {
 		case 7:
 			out = append(out, protect(un("-", operand(l))))
 		case 8:
+			// (# of a table does not consult __len in 5.1 and gopher-lua documents that it does: not generated)
+			if _, isObj := g.opMt[l]; isObj && !g.opIsUd[l] && g.mtHasLen[g.opMt[l]] {
+				l = "ps"
+			}
 			out = append(out, protect(un("#", operand(l))))
 		case 9:
 			// index: raw first, then __index through tables and functions
@@ -171,7 +181,12 @@ func (g *Gen) tplMetaOps() []L.Stmt {
 		case 13:
 			out = append(out, protect(call(name("getmetatable"), operand(l))), emit(call(name("pcall"), name("setmetatable"), name("pt"), tbl())))
 			if g.n(2, "setprot") == 0 {
-				out = append(out, emit(call(name("select"), num(1), call(name("pcall"), name("setmetatable"), operand(ops[g.n(3, "protobj")]), tbl()))))
+				// (setmetatable on userdata is not defined in 5.1)
+				po := ops[g.n(3, "protobj")]
+				if g.opIsUd[po] {
+					po = "pt"
+				}
+				out = append(out, emit(call(name("select"), num(1), call(name("pcall"), name("setmetatable"), operand(po), tbl()))))
 			}
 		case 14:
 			// __call as a for-in iterator
@@ -181,6 +196,11 @@ func (g *Gen) tplMetaOps() []L.Stmt {
 		default:
 			// __index chains
 			depth := 1 + g.n(5, "chaindepth")
+			if g.pct(15, "deepchain") {
+				// around the limit on the length of a chain (100 steps)
+				depth = 97 + g.n(6, "deepchaindepth")
+				g.class("meta:index_chain_near_limit")
+			}
 			ss := []L.Stmt{local1("base", tbl(kv(str("deep"), str("bottom"))))}
 			if g.n(2, "chainfn") == 0 {
 				// the chain ends in a function: it must receive the table that owns the handler, and the key
@@ -188,14 +208,17 @@ func (g *Gen) tplMetaOps() []L.Stmt {
 				ss = []L.Stmt{local1("owner", tbl(kv(str("tag"), str("owner")))),
 					local1("base", call(name("setmetatable"), name("owner"), tbl(kv(str("__index"), fn([]string{"t", "k"}, false, blk(emit(str("chain handler"), name("t"), bin("==", name("t"), name("owner")), name("k")), ret(bin("..", str("fn:"), call(name("tostring"), name("k"))))))))))}
 			}
-			for d := 0; d < depth; d++ {
-				ss = append(ss, assign1(name("base"), call(name("setmetatable"), tbl(), tbl(kv(str("__index"), name("base"))))))
-			}
-			ss = append(ss, emit(field(name("base"), "deep"), field(name("base"), "nothing"), call(name("rawget"), name("base"), str("deep"))))
+			// the same chain serves assignments: a store under an absent key travels down to the first table without
+			// __newindex (the bottom), or ends in an error when the chain is too long
+			ss = append(ss, local1("bottom", name("base")))
+			ss = append(ss, &L.NumForStmt{Var: "d", Start: num(1), End: num(float64(depth)), Body: blk(assign1(name("base"), call(name("setmetatable"), tbl(), tbl(kv(str("__index"), name("base")), kv(str("__newindex"), name("base"))))))})
+			ss = append(ss, protect(field(name("base"), "deep")), protect(field(name("base"), "nothing")), emit(call(name("rawget"), name("base"), str("deep"))),
+				emit(call(name("pcall"), fn(nil, false, blk(assign1(field(name("base"), "stored"), num(1))))), call(name("rawget"), name("bottom"), str("stored")), call(name("rawget"), name("base"), str("stored"))),
+				emit(call(name("pcall"), fn(nil, false, blk(local1("ck2", str("stored2")), assign1(idx(name("base"), name("ck2")), num(2))))), call(name("rawget"), name("bottom"), str("stored2"))))
 			// the same lookups through a computed key, a method call and as the environment of a function
-			ss = append(ss, local1("ck", str("computed")), emit(idx(name("base"), name("ck")), idx(name("base"), num(7))),
+			ss = append(ss, local1("ck", str("computed")), protect(idx(name("base"), name("ck")), idx(name("base"), num(7))),
 				emit(call(name("pcall"), fn(nil, false, blk(ret(mcall(name("base"), "method", num(1))))))),
-				local1("envf", fn(nil, false, blk(ret(name("freeglobal"))))), callStmt(call(name("setfenv"), name("envf"), name("base"))), emit(call(name("envf"))))
+				local1("envf", fn(nil, false, blk(ret(name("freeglobal"))))), callStmt(call(name("setfenv"), name("envf"), name("base"))), emit(call(name("pcall"), name("envf"))))
 			if g.n(3, "loopchain") == 0 {
 				// a chain that loops back on itself must end in an error, not hang
 				ss = append(ss, local1("l1", tbl()), local1("l2", call(name("setmetatable"), tbl(), tbl(kv(str("__index"), name("l1"))))), callStmt(call(name("setmetatable"), name("l1"), tbl(kv(str("__index"), name("l2"))))),
